@@ -4,6 +4,7 @@ import (
 	"bytes"
 	"encoding/binary"
 	"fmt"
+	"math"
 	"strings"
 )
 
@@ -45,7 +46,7 @@ func intToBytes(n int) ([]byte, error) {
 		return nil, fmt.Errorf("negative number: %d", n)
 	}
 	buf := new(bytes.Buffer)
-	err := binary.Write(buf, binary.BigEndian, uint32(n))
+	err := binary.Write(buf, binary.BigEndian, uint64(n))
 	if err != nil {
 		return nil, fmt.Errorf("int to bytes: %w", err)
 	}
@@ -54,10 +55,13 @@ func intToBytes(n int) ([]byte, error) {
 
 func bytesToInt(b []byte) (int, error) {
 	buf := bytes.NewReader(b)
-	var n uint32
+	var n uint64
 	err := binary.Read(buf, binary.BigEndian, &n)
 	if err != nil {
 		return 0, fmt.Errorf("bytes to int: %w", err)
+	}
+	if n > math.MaxInt {
+		return 0, fmt.Errorf("bytes to int: value %d overflows int", n)
 	}
 	return int(n), nil
 }
@@ -72,7 +76,7 @@ func (p *binaryVarPrefixer) EncodeLength(maxLen, dataLen int) ([]byte, error) {
 		return nil, fmt.Errorf("encode length: %w", err)
 	}
 
-	// remove all leading zeros as res is always 4 bytes
+	// remove all leading zeros as res is always 8 bytes
 	res = bytes.TrimLeft(res, "\x00")
 
 	if len(res) > p.Digits {
@@ -87,9 +91,9 @@ func (p *binaryVarPrefixer) EncodeLength(maxLen, dataLen int) ([]byte, error) {
 	return res, nil
 }
 
-// DecodeLength decodes the length of the field from the data. It reads up to 4
-// bytes from data, converts it into int32 and returns the length of the field
-// and the number of bytes read.
+// DecodeLength decodes the length of the field from the data. It reads
+// p.Digits bytes from data, converts them into an unsigned big-endian integer
+// and returns the length of the field and the number of bytes read.
 func (p *binaryVarPrefixer) DecodeLength(maxLen int, data []byte) (int, int, error) {
 	if len(data) < p.Digits {
 		return 0, 0, fmt.Errorf(notEnoughDataToRead, len(data), p.Digits)
@@ -97,12 +101,12 @@ func (p *binaryVarPrefixer) DecodeLength(maxLen int, data []byte) (int, int, err
 
 	prefBytes := data[:p.Digits]
 
-	// it take 4 bytes to encode (u)int32
-	uint32Size := 4
+	// it take 8 bytes to encode (u)int64
+	uint64Size := 8
 
-	// prepend with 0x00 if len of data is less than intSize (4 bytes)
-	if len(prefBytes) < uint32Size {
-		prefBytes = append(bytes.Repeat([]byte{0x00}, uint32Size-len(prefBytes)), prefBytes...)
+	// prepend with 0x00 if len of data is less than intSize (8 bytes)
+	if len(prefBytes) < uint64Size {
+		prefBytes = append(bytes.Repeat([]byte{0x00}, uint64Size-len(prefBytes)), prefBytes...)
 	}
 
 	dataLen, err := bytesToInt(prefBytes)
